@@ -38,47 +38,81 @@ Section Layout.
   Variable whole : list tok.
   Hypothesis HkwL : existsb (String.eqb "lambda") kw = true.
 
-  Definition mode0 (first : bool) (last : option string) : mode := if first then First last else Seek last.
+  Definition mode0 (first : bool) (last prev : option string) (nm : bool) : mode :=
+    if first then First last prev nm else Seek last prev nm.
 
-  Lemma scan_glue : forall first xs last i rest cs,
+  Lemma scan_glue : forall first xs last prev nm i rest cs,
       forallb (glue_tok_ok first kw) xs = true ->
-      exists last', scan P kw whole (mode0 first last) i (xs ++ rest) cs
-                    = scan P kw whole (mode0 first last') (i + List.length xs) rest cs.
+      exists last' prev' nm', scan P kw true whole (mode0 first last prev nm) i (xs ++ rest) cs
+                    = scan P kw true whole (mode0 first last' prev' nm') (i + List.length xs) rest cs.
   Proof.
-    intros first. induction xs as [|a xs IH]; intros last i rest cs H.
-    - exists last. cbn. rewrite Nat.add_0_r. reflexivity.
+    intros first. induction xs as [|a xs IH]; intros last prev nm i rest cs H.
+    - exists last, prev, nm. cbn. rewrite Nat.add_0_r. reflexivity.
     - cbn [forallb] in H. apply andb_true_iff in H. destruct H as [Ha Hxs].
       unfold glue_tok_ok in Ha. apply andb_true_iff in Ha. destruct Ha as [He Ha].
       cbn [app List.length]. replace (i + S (List.length xs)) with (S i + List.length xs) by lia.
       destruct first; cbn [mode0 scan] in *; rewrite (no_err_kerr _ He).
       + destruct (is_kind KName a) eqn:Hn.
-        * cbn [andb] in Ha. apply negb_true_iff in Ha. rewrite Ha. apply (IH (Some (ttext a))); auto.
-        * apply (IH last); auto.
+        * cbn [andb] in Ha. apply negb_true_iff in Ha. rewrite Ha. apply (IH (Some (ttext a)) last true); auto.
+        * apply (IH (unkw true nm last prev a) prev false); auto.
       + apply andb_true_iff in Ha. destruct Ha as [Hl Hnl]. apply negb_true_iff in Hl, Hnl.
         destruct (is_kind KName a) eqn:Hn.
-        * unfold is_name in Hl. rewrite Hn in Hl. cbn [andb] in Hl. rewrite Hl. apply (IH (Some (ttext a))); auto.
-        * rewrite Hnl. apply (IH last); auto.
+        * unfold is_name in Hl. rewrite Hn in Hl. cbn [andb] in Hl. rewrite Hl. apply (IH (Some (ttext a)) last true); auto.
+        * rewrite Hnl. apply (IH (unkw true nm last prev a) prev false); auto.
   Qed.
 
-  Lemma scan_gap : forall first xs last i rest cs,
-      forallb gap_tok_ok xs = true ->
-      scan P kw whole (mode0 first last) i (xs ++ rest) cs
-      = scan P kw whole (mode0 first last) (i + List.length xs) rest cs.
+  Lemma is_op_not_name : forall s t, is_op s t = true -> is_kind KName t = false.
+  Proof. intros s t. unfold is_op, is_kind. destruct (tkind t); cbn; auto; discriminate. Qed.
+  Lemma is_op_not_newline : forall s t, is_op s t = true -> is_kind KNewline t = false.
+  Proof. intros s t. unfold is_op, is_kind. destruct (tkind t); cbn; auto; discriminate. Qed.
+  Lemma is_op_not_err : forall s t, is_op s t = true -> is_kind KErr t = false.
+  Proof. intros s t. unfold is_op, is_kind. destruct (tkind t); cbn; auto; discriminate. Qed.
+
+  (* the gap keeps the calling NAME: a NAME in it is followed by `=`, which restores the NAME before it *)
+  Lemma scan_gap_n : forall n first xs f prev an i rest cs,
+      List.length xs <= n ->
+      gap_ok first kw an xs = true ->
+      exists prev' an', scan P kw true whole (mode0 first (Some f) prev an) i (xs ++ rest) cs
+                        = scan P kw true whole (mode0 first (Some f) prev' an') (i + List.length xs) rest cs.
   Proof.
-    intros first. induction xs as [|a xs IH]; intros last i rest cs H.
-    - cbn. rewrite Nat.add_0_r. reflexivity.
-    - cbn [forallb] in H. apply andb_true_iff in H. destruct H as [Ha Hxs].
-      unfold gap_tok_ok in Ha. apply andb_true_iff in Ha. destruct Ha as [Ha H]. apply andb_true_iff in Ha.
-      cbn [app List.length]. replace (i + S (List.length xs)) with (S i + List.length xs) by lia.
-      rewrite <- (IH last (S i) rest cs Hxs).
-      destruct Ha as [Ha H1]. rename H into H2.
-      apply negb_true_iff in H1, H2; destruct first; cbn [mode0 scan]; rewrite (no_err_kerr _ Ha), H1; try rewrite H2; reflexivity.
+    induction n as [|n IH]; intros first xs f prev an i rest cs Hlen H.
+    - destruct xs; [|cbn in Hlen; lia]. exists prev, an. cbn. rewrite Nat.add_0_r. reflexivity.
+    - destruct xs as [|a xs]; [exists prev, an; cbn; rewrite Nat.add_0_r; reflexivity|].
+      cbn [gap_ok] in H. apply andb_true_iff in H. destruct H as [H H3]. apply andb_true_iff in H.
+      destruct H as [H1 H2]. apply negb_true_iff in H2. cbn [List.length] in Hlen.
+      destruct (is_kind KName a) eqn:Hn.
+      + apply andb_true_iff in H3. destruct H3 as [Hpl H3].
+        destruct xs as [|e xs']; [discriminate|]. apply andb_true_iff in H3. destruct H3 as [Heq Hrest].
+        cbn [List.length] in Hlen.
+        destruct (IH first xs' f (Some f) false (S (S i)) rest cs ltac:(lia) Hrest) as (prev' & an' & E).
+        exists prev', an'.
+        cbn [app List.length]. replace (i + S (S (List.length xs'))) with (S (S i) + List.length xs') by lia.
+        rewrite <- E.
+        destruct first; cbn [mode0 scan plain_name] in *; rewrite (no_err_kerr _ H1), Hn.
+        * apply negb_true_iff in Hpl. rewrite Hpl.
+          rewrite (is_op_not_err _ _ Heq), (is_op_not_name _ _ Heq). unfold unkw. rewrite Heq. reflexivity.
+        * apply negb_true_iff in Hpl. rewrite Hpl.
+          rewrite (is_op_not_err _ _ Heq), (is_op_not_name _ _ Heq), (is_op_not_newline _ _ Heq).
+          unfold unkw. rewrite Heq. reflexivity.
+      + apply andb_true_iff in H3. destruct H3 as [Hne Hrest]. apply negb_true_iff in Hne.
+        destruct (IH first xs f prev false (S i) rest cs ltac:(lia) Hrest) as (prev' & an' & E).
+        exists prev', an'.
+        cbn [app List.length]. replace (i + S (List.length xs)) with (S i + List.length xs) by lia.
+        rewrite <- E.
+        destruct first; cbn [mode0 scan]; rewrite (no_err_kerr _ H1), Hn; try rewrite H2;
+          unfold unkw; cbn [andb]; rewrite Hne; reflexivity.
   Qed.
+
+  Lemma scan_gap : forall first xs f prev i rest cs,
+      gap_ok first kw true xs = true ->
+      exists prev' an', scan P kw true whole (mode0 first (Some f) prev true) i (xs ++ rest) cs
+                        = scan P kw true whole (mode0 first (Some f) prev' an') (i + List.length xs) rest cs.
+  Proof. intros. eapply scan_gap_n; eauto. Qed.
 
   Lemma scan_body : forall body p b c saw i rest cs key st row p' b' c',
       body_ok p b c body = Some (p', b', c') ->
-      scan P kw whole (Ext key st row p b c saw) i (body ++ rest) cs
-      = scan P kw whole (Ext key st row p' b' c' (saw || existsb is_nl (filter not_comment body)))
+      scan P kw true whole (Ext key st row p b c saw) i (body ++ rest) cs
+      = scan P kw true whole (Ext key st row p' b' c' (saw || existsb is_nl (filter not_comment body)))
              (i + List.length body) rest cs.
   Proof.
     induction body as [|a body IH]; intros p b c saw i rest cs key st row p' b' c' H.
@@ -91,19 +125,19 @@ Section Layout.
       + rewrite (IH _ _ _ _ _ _ _ _ _ _ _ _ _ H). cbn [existsb]. rewrite orb_assoc. reflexivity.
   Qed.
 
-  Lemma scan_name_step : forall (first : bool) last i nm row rest cs,
+  Lemma scan_name_step : forall (first : bool) last prev an i nm row rest cs,
       (if first then existsb (String.eqb nm) kw else String.eqb nm "lambda") = false ->
-      scan P kw whole (mode0 first last) i (mkTok row KName nm :: rest) cs
-      = scan P kw whole (mode0 first (Some nm)) (S i) rest cs.
+      scan P kw true whole (mode0 first last prev an) i (mkTok row KName nm :: rest) cs
+      = scan P kw true whole (mode0 first (Some nm) last true) (S i) rest cs.
   Proof.
-    intros first last i nm row rest cs H. destruct first; cbn [mode0 scan]; cbn [is_kind tkind ttext]; rewrite H; reflexivity.
+    intros first last prev an i nm row rest cs H. destruct first; cbn [mode0 scan]; cbn [is_kind tkind ttext]; rewrite H; reflexivity.
   Qed.
 
-  Lemma scan_lambda_step : forall first nm i row rest cs,
-      scan P kw whole (mode0 first (Some nm)) i (mkTok row KName "lambda" :: rest) cs
-      = scan P kw whole (Ext (Some nm) i row 0 0 0 false) (S i) rest cs.
+  Lemma scan_lambda_step : forall first nm prev an i row rest cs,
+      scan P kw true whole (mode0 first (Some nm) prev an) i (mkTok row KName "lambda" :: rest) cs
+      = scan P kw true whole (Ext (Some nm) i row 0 0 0 false) (S i) rest cs.
   Proof.
-    intros first nm i row rest cs. destruct first; cbn [mode0 scan]; cbn [is_kind tkind ttext trow].
+    intros first nm prev an i row rest cs. destruct first; cbn [mode0 scan]; cbn [is_kind tkind ttext trow].
     - rewrite HkwL. reflexivity.
     - reflexivity.
   Qed.
@@ -113,9 +147,9 @@ Section Layout.
 
   Lemma scan_stop_step : forall key st row p b c saw i t rest cs,
       is_stop t = true -> zero3 p b c = true ->
-      scan P kw whole (Ext key st row p b c saw) i (t :: rest) cs
+      scan P kw true whole (Ext key st row p b c saw) i (t :: rest) cs
       = close P whole key st i row cs
-              (fun cs' => if saw then ScDone (rev cs') else scan P kw whole (Seek None) (S i) rest cs').
+              (fun cs' => if saw then ScDone (rev cs') else scan P kw true whole (Seek None None false) (S i) rest cs').
   Proof.
     intros key st row p b c saw i t rest cs Hs Hz. cbn [scan]. rewrite (is_stop_not_err _ Hs), Hs, Hz. reflexivity.
   Qed.
@@ -133,31 +167,32 @@ Section Layout.
       = g_glue g ++ mkTok (g_row g) KName (g_name g) :: g_gap g ++ lam_tok g :: g_body g ++ g_stop g :: rest.
   Proof. intros g rest. unfold seg_toks, lam_tok. repeat rewrite <- app_assoc. reflexivity. Qed.
 
-  Lemma scan_segment : forall first lastf g pre rest last cs,
+  Lemma scan_segment : forall first lastf g pre rest last prev an cs,
       whole = pre ++ seg_toks g ++ rest ->
       seg_ok first lastf kw g = true ->
       parse_ok g ->
-      scan P kw whole (mode0 first last) (List.length pre) (seg_toks g ++ rest) cs
+      scan P kw true whole (mode0 first last prev an) (List.length pre) (seg_toks g ++ rest) cs
       = if seg_saw g then ScDone (rev (cand_of g (List.length pre) :: cs))
-        else scan P kw whole (Seek None) (List.length pre + List.length (seg_toks g)) rest
+        else scan P kw true whole (Seek None None false) (List.length pre + List.length (seg_toks g)) rest
                   (cand_of g (List.length pre) :: cs).
   Proof.
-    intros first lastf g pre rest last cs Hw Hok [a Ha].
+    intros first lastf g pre rest last prev an cs Hw Hok [a Ha].
     unfold seg_ok in Hok. repeat (apply andb_true_iff in Hok; destruct Hok as [Hok ?]).
     rename Hok into Hglue.
     match goal with H : body_balanced _ = true |- _ => rename H into Hbal end.
     match goal with H : is_stop _ = true |- _ => rename H into Hstop end.
-    match goal with H : forallb gap_tok_ok _ = true |- _ => rename H into Hgap end.
+    match goal with H : gap_ok _ _ _ _ = true |- _ => rename H into Hgap end.
     match goal with H : (if first then _ else _) = true |- _ => rename H into Hname end.
     unfold body_balanced in Hbal. destruct (body_ok 0 0 0 (g_body g)) as [[[p' b'] c']|] eqn:Hbody; [|discriminate].
     assert (Hname' : (if first then existsb (String.eqb (g_name g)) kw else String.eqb (g_name g) "lambda") = false).
     { destruct first; apply negb_true_iff in Hname; exact Hname. }
     rewrite seg_toks_app.
-    destruct (scan_glue first (g_glue g) last (List.length pre)
+    destruct (scan_glue first (g_glue g) last prev an (List.length pre)
                         (mkTok (g_row g) KName (g_name g) :: g_gap g ++ lam_tok g :: g_body g ++ g_stop g :: rest) cs Hglue)
-      as [last' ->].
-    rewrite (scan_name_step first last' _ (g_name g) (g_row g) _ cs Hname').
-    rewrite scan_gap by exact Hgap.
+      as (last' & prev' & an' & ->).
+    rewrite (scan_name_step first last' prev' an' _ (g_name g) (g_row g) _ cs Hname').
+    destruct (scan_gap first (g_gap g) (g_name g) last' (S (List.length pre + List.length (g_glue g)))
+                       (lam_tok g :: g_body g ++ g_stop g :: rest) cs Hgap) as (prev2 & an2 & ->).
     unfold lam_tok at 1. rewrite scan_lambda_step.
     rewrite (scan_body _ _ _ _ _ _ _ _ _ _ _ _ _ _ Hbody).
     rewrite (scan_stop_step _ _ _ _ _ _ _ _ _ _ _ Hstop Hbal).
@@ -192,10 +227,10 @@ Section Layout.
   Lemma name_not_newline : forall t, is_kind KName t = true -> is_kind KNewline t = false.
   Proof. intros t. unfold is_kind. destruct (tkind t); auto; discriminate. Qed.
 
-  Lemma scan_tail : forall tail last i cs,
-      tail_ok tail = true -> scan P kw whole (Seek last) i tail cs = ScDone (rev cs).
+  Lemma scan_tail : forall tail last prev an i cs,
+      tail_ok tail = true -> scan P kw true whole (Seek last prev an) i tail cs = ScDone (rev cs).
   Proof.
-    induction tail as [|a tail IH]; intros last i cs H; cbn [scan]; [reflexivity|].
+    induction tail as [|a tail IH]; intros last prev an i cs H; cbn [scan]; [reflexivity|].
     cbn [tail_ok] in H. apply andb_true_iff in H. destruct H as [He H]. rewrite (no_err_kerr _ He).
     destruct (is_kind KName a) eqn:Hn.
     - rewrite (name_not_newline _ Hn) in H. cbn [orb] in H. apply andb_true_iff in H. destruct H as [Hl Ht].
@@ -217,18 +252,18 @@ Section Layout.
     destruct H as [H1 H2]. cbn [filter]. destruct (g x); cbn [existsb]; [rewrite H1|]; auto.
   Qed.
 
-  Lemma scan_chain : forall gs first pre tail cs last,
+  Lemma scan_chain : forall gs first pre tail cs last prev an,
       whole = pre ++ layout_toks gs tail ->
       segs_ok first kw gs = true -> Forall parse_ok gs -> end_ok gs tail = true ->
-      scan P kw whole (mode0 first last) (List.length pre) (layout_toks gs tail) cs
+      scan P kw true whole (mode0 first last prev an) (List.length pre) (layout_toks gs tail) cs
       = ScDone (rev cs ++ cands_from gs (List.length pre)).
   Proof.
-    induction gs as [|g r IH]; intros first pre tail cs last Hw Hok Hp He; [discriminate|].
+    induction gs as [|g r IH]; intros first pre tail cs last prev an Hw Hok Hp He; [discriminate|].
     pose proof (Forall_inv Hp) as Hpg. pose proof (Forall_inv_tail Hp) as Hpr.
     destruct r as [|g2 r'].
     - cbn [segs_ok] in Hok. cbn [end_ok] in He.
       unfold layout_toks in *. cbn [flat_map] in *. rewrite app_nil_r in *.
-      rewrite (scan_segment first true g pre tail last cs Hw Hok Hpg).
+      rewrite (scan_segment first true g pre tail last prev an cs Hw Hok Hpg).
       cbn [cands_from]. destruct (seg_saw g).
       + reflexivity.
       + cbn [orb] in He. rewrite scan_tail by exact He. reflexivity.
@@ -237,10 +272,10 @@ Section Layout.
       { unfold seg_ok in Hg. apply andb_true_iff in Hg. destruct Hg as [_ Hg]. cbn [orb] in Hg.
         apply negb_true_iff in Hg. unfold seg_saw. apply existsb_filter_false; auto. }
       rewrite layout_toks_cons in *.
-      rewrite (scan_segment first false g pre (layout_toks (g2 :: r') tail) last cs Hw Hg Hpg). rewrite Hsaw.
-      change (Seek None) with (mode0 false None).
+      rewrite (scan_segment first false g pre (layout_toks (g2 :: r') tail) last prev an cs Hw Hg Hpg). rewrite Hsaw.
+      change (Seek None None false) with (mode0 false None None false).
       replace (List.length pre + List.length (seg_toks g)) with (List.length (pre ++ seg_toks g)) by (rewrite app_length; reflexivity).
-      rewrite (IH false (pre ++ seg_toks g) tail (cand_of g (List.length pre) :: cs) None); auto.
+      rewrite (IH false (pre ++ seg_toks g) tail (cand_of g (List.length pre) :: cs) None None false); auto.
       + cbn [rev cands_from]. rewrite <- app_assoc. cbn [app]. rewrite app_length. reflexivity.
       + rewrite Hw. rewrite <- app_assoc. reflexivity.
   Qed.
@@ -287,18 +322,18 @@ Lemma filter_mid : forall (A : Type) (f : A -> bool) l1 x l2,
 Proof. intros A f l1 x l2 H1 Hx H2. rewrite filter_app. cbn [filter]. rewrite H1, Hx, H2. reflexivity. Qed.
 
 Lemma backup_earlier : forall P kw earlier toks more s0,
-    Forall (fun ts => exists k, scan_stream P kw ts = ScNoName k) earlier ->
-    (forall k, scan_stream P kw toks <> ScNoName k) ->
-    backup P kw (earlier ++ toks :: more) s0 = (s0 + List.length earlier, Some (scan_stream P kw toks)).
+    Forall (fun ts => exists k, scan_stream P kw true ts = ScNoName k) earlier ->
+    (forall k, scan_stream P kw true toks <> ScNoName k) ->
+    backup P kw true (earlier ++ toks :: more) s0 = (s0 + List.length earlier, Some (scan_stream P kw true toks)).
 Proof.
   induction earlier as [|ts r IH]; intros toks more s0 He Hn; cbn [app backup List.length].
-  - rewrite Nat.add_0_r. destruct (scan_stream P kw toks) eqn:E; try reflexivity. exfalso. eapply Hn; eauto.
+  - rewrite Nat.add_0_r. destruct (scan_stream P kw true toks) eqn:E; try reflexivity. exfalso. eapply Hn; eauto.
   - inversion He as [|? ? [k Hk] Hr]; subst. rewrite Hk. rewrite (IH toks more (S s0) Hr Hn). f_equal. lia.
 Qed.
 
 Theorem supported_layouts :
   forall P L dsrc caller args earlier more gs1 g0 gs2 tail,
-    Forall (fun ts => exists k, scan_stream P ["lambda"] ts = ScNoName k) earlier ->
+    Forall (fun ts => exists k, scan_stream P ["lambda"] true ts = ScNoName k) earlier ->
     segs_ok true ["lambda"] (gs1 ++ g0 :: gs2) = true ->
     Forall (parse_ok P) (gs1 ++ g0 :: gs2) ->
     end_ok (gs1 ++ g0 :: gs2) tail = true ->
@@ -310,8 +345,8 @@ Theorem supported_layouts :
 Proof.
   intros P L dsrc caller args earlier more gs1 g0 gs2 tail He Hok Hp Hend Hm H1 H2.
   set (gs := gs1 ++ g0 :: gs2) in *. set (toks := layout_toks gs tail).
-  assert (Hscan : scan_stream P ["lambda"] toks = ScDone (cands_from P gs 0)).
-  { exact (scan_chain P ["lambda"] toks eq_refl gs true [] tail [] None eq_refl Hok Hp Hend). }
+  assert (Hscan : scan_stream P ["lambda"] true toks = ScDone (cands_from P gs 0)).
+  { exact (scan_chain P ["lambda"] toks eq_refl gs true [] tail [] None None false eq_refl Hok Hp Hend). }
   unfold find, find_gen. cbn [keywords].
   rewrite (backup_earlier P ["lambda"] earlier toks more 0 He) by (intros k; rewrite Hscan; discriminate).
   rewrite Hscan. cbn [Nat.add].
@@ -338,7 +373,7 @@ Proof.
 Qed.
 
 Definition backs_up (P : parse_fn) (ts : list tok) : bool :=
-  match scan_stream P ["lambda"] ts with ScNoName _ => true | _ => false end.
+  match scan_stream P ["lambda"] true ts with ScNoName _ => true | _ => false end.
 
 Theorem supported_layouts_b :
   forall P L dsrc caller args earlier more gs1 g0 gs2 tail,
@@ -353,7 +388,7 @@ Proof.
   rewrite forallb_app in Hnon. apply andb_true_iff in Hnon. destruct Hnon as [Hn1 Hn2].
   apply supported_layouts; auto.
   - rewrite forallb_forall in He. apply Forall_forall. intros ts Hts. specialize (He ts Hts).
-    unfold backs_up in He. destruct (scan_stream P ["lambda"] ts); try discriminate. eauto.
+    unfold backs_up in He. destruct (scan_stream P ["lambda"] true ts); try discriminate. eauto.
   - apply Forall_forall. intros g Hg.
     match goal with Hp : forallb (seg_parsed P) _ = true |- _ => rewrite forallb_forall in Hp; specialize (Hp g Hg) end.
     unfold parse_ok. unfold seg_parsed in *. destruct (P (ext_of g)); try discriminate. eauto.
@@ -375,12 +410,12 @@ Proof.
   assert (Hp' : Forall (parse_ok P) gs).
   { apply Forall_forall. intros g Hg. rewrite forallb_forall in Hp. specialize (Hp g Hg).
     unfold parse_ok. unfold seg_parsed in Hp. destruct (P (ext_of g)); try discriminate. eauto. }
-  assert (He' : Forall (fun ts => exists k, scan_stream P ["lambda"] ts = ScNoName k) earlier).
+  assert (He' : Forall (fun ts => exists k, scan_stream P ["lambda"] true ts = ScNoName k) earlier).
   { rewrite forallb_forall in He. apply Forall_forall. intros ts Hts. specialize (He ts Hts).
-    unfold backs_up in He. destruct (scan_stream P ["lambda"] ts); try discriminate. eauto. }
+    unfold backs_up in He. destruct (scan_stream P ["lambda"] true ts); try discriminate. eauto. }
   set (toks := layout_toks gs tail).
-  assert (Hscan : scan_stream P ["lambda"] toks = ScDone (cands_from P gs 0)).
-  { exact (scan_chain P ["lambda"] toks eq_refl gs true [] tail [] None eq_refl Hok Hp' Hend). }
+  assert (Hscan : scan_stream P ["lambda"] true toks = ScDone (cands_from P gs 0)).
+  { exact (scan_chain P ["lambda"] toks eq_refl gs true [] tail [] None None false eq_refl Hok Hp' Hend). }
   unfold find, find_gen. cbn [keywords].
   rewrite (backup_earlier P ["lambda"] earlier toks more 0 He') by (intros k; rewrite Hscan; discriminate).
   rewrite Hscan. reflexivity.
@@ -477,6 +512,104 @@ Proof.
       with (Nat.eqb (g_lrow g) L && String.eqb (g_name g) caller).
     rewrite Hg. apply IH; auto. }
   rewrite Hnone. reflexivity.
+Qed.
+
+(* ------------------------------------------------------------------ a lambda passed by keyword (F28) *)
+(* the call segment of `... m ( k = lambda body stop`: the gap between the method name and the lambda
+   is `(`, the keyword NAME and the OP `=` *)
+Definition kw_seg (glue : list tok) (m : string) (mrow prow : nat) (k : string) (krow erow lrow : nat)
+           (body : list tok) (stop : tok) : segment :=
+  mkSeg glue m mrow [mkTok prow KOp "("; mkTok krow KName k; mkTok erow KOp "="] lrow body stop.
+
+Definition kw_toks (glue : list tok) (m : string) (mrow prow : nat) (k : string) (krow erow lrow : nat)
+           (body : list tok) (stop : tok) (tail : list tok) : list tok :=
+  glue ++ mkTok mrow KName m :: mkTok prow KOp "(" :: mkTok krow KName k :: mkTok erow KOp "="
+       :: mkTok lrow KName "lambda" :: body ++ stop :: tail.
+
+Lemma kw_toks_layout : forall glue m mrow prow k krow erow lrow body stop tail,
+    kw_toks glue m mrow prow k krow erow lrow body stop tail
+    = layout_toks [kw_seg glue m mrow prow k krow erow lrow body stop] tail.
+Proof.
+  intros. unfold kw_toks, layout_toks, kw_seg, seg_toks. cbn [flat_map g_glue g_name g_row g_gap g_lrow g_body g_stop].
+  rewrite app_nil_r. repeat rewrite <- app_assoc. reflexivity.
+Qed.
+
+Lemma kw_seg_ok : forall glue m mrow prow k krow erow lrow body stop,
+    forallb (glue_tok_ok true ["lambda"]) glue = true ->
+    m <> "lambda" -> k <> "lambda" ->
+    body_balanced body = true -> is_stop stop = true ->
+    seg_ok true true ["lambda"] (kw_seg glue m mrow prow k krow erow lrow body stop) = true.
+Proof.
+  intros glue m mrow prow k krow erow lrow body stop Hg Hm Hk Hb Hs.
+  apply String.eqb_neq in Hm, Hk.
+  unfold seg_ok, kw_seg. cbn [g_glue g_name g_gap g_body g_stop].
+  rewrite Hg, Hb, Hs. cbn [existsb]. rewrite Hm. cbn [orb negb andb].
+  cbn [gap_ok no_err is_kind is_op tkind ttext negb andb plain_name existsb].
+  rewrite Hk. reflexivity.
+Qed.
+
+(* the lambda passed by the keyword k to the method m is filed under m - never under k: the scan's
+   only candidate has the key m, and the outcome for every caller is the selection over it *)
+Theorem keyword_lambda_filed :
+  forall P L dsrc caller args earlier more glue m mrow prow k krow erow lrow body stop tail,
+    forallb (backs_up P) earlier = true ->
+    forallb (glue_tok_ok true ["lambda"]) glue = true ->
+    m <> "lambda" -> k <> "lambda" ->
+    body_balanced body = true -> is_stop stop = true ->
+    seg_parsed P (kw_seg glue m mrow prow k krow erow lrow body stop) = true ->
+    (seg_saw (kw_seg glue m mrow prow k krow erow lrow body stop) || tail_ok tail) = true ->
+    scan_stream P ["lambda"] true (kw_toks glue m mrow prow k krow erow lrow body stop tail)
+    = ScDone [mkCand (Some m) (List.length glue + 4) (List.length glue + 4 + 1 + List.length body) lrow
+                     (P (mkTok lrow KName "lambda" :: filter not_comment body))]
+    /\ find P (earlier ++ kw_toks glue m mrow prow k krow erow lrow body stop tail :: more) L true dsrc caller args
+       = select true L caller args (List.length earlier)
+                [mkCand (Some m) (List.length glue + 4) (List.length glue + 4 + 1 + List.length body) lrow
+                        (P (mkTok lrow KName "lambda" :: filter not_comment body))].
+Proof.
+  intros P L dsrc caller args earlier more glue m mrow prow k krow erow lrow body stop tail He Hg Hm Hk Hb Hs Hp Hend.
+  set (g := kw_seg glue m mrow prow k krow erow lrow body stop) in *.
+  assert (Hok : segs_ok true ["lambda"] [g] = true) by (cbn [segs_ok]; apply kw_seg_ok; auto).
+  assert (Hps : forallb (seg_parsed P) [g] = true) by (cbn [forallb]; rewrite Hp; reflexivity).
+  assert (Hp' : Forall (parse_ok P) [g]).
+  { constructor; [|constructor]. unfold parse_ok. unfold seg_parsed in Hp. destruct (P (ext_of g)); try discriminate. eauto. }
+  assert (Hcs : cands_from P [g] 0
+                = [mkCand (Some m) (List.length glue + 4) (List.length glue + 4 + 1 + List.length body) lrow
+                          (P (mkTok lrow KName "lambda" :: filter not_comment body))]).
+  { cbn [cands_from]. unfold cand_of, seg_start, ext_of, lam_tok, g, kw_seg.
+    cbn [g_glue g_name g_gap g_lrow g_body List.length]. f_equal. f_equal; lia. }
+  rewrite kw_toks_layout. fold g. split.
+  - rewrite <- Hcs.
+    exact (scan_chain P ["lambda"] (layout_toks [g] tail) eq_refl [g] true [] tail [] None None false eq_refl Hok Hp' Hend).
+  - rewrite <- Hcs. apply segment_layout_outcome; auto.
+Qed.
+
+(* ... hence it is a candidate for that caller: on the callable's row, with the callable's parameter
+   names, it is what is returned for the caller m *)
+Theorem keyword_lambda_found :
+  forall P L dsrc args earlier more glue m mrow prow k krow erow body stop tail,
+    forallb (backs_up P) earlier = true ->
+    forallb (glue_tok_ok true ["lambda"]) glue = true ->
+    m <> "lambda" -> k <> "lambda" ->
+    body_balanced body = true -> is_stop stop = true ->
+    P (mkTok L KName "lambda" :: filter not_comment body) = PArgs args ->
+    (seg_saw (kw_seg glue m mrow prow k krow erow L body stop) || tail_ok tail) = true ->
+    find P (earlier ++ kw_toks glue m mrow prow k krow erow L body stop tail :: more) L true dsrc (Some m) args
+    = Found (List.length earlier) (List.length glue + 4).
+Proof.
+  intros P L dsrc args earlier more glue m mrow prow k krow erow body stop tail He Hg Hm Hk Hb Hs Hp Hend.
+  assert (Hps : seg_parsed P (kw_seg glue m mrow prow k krow erow L body stop) = true).
+  { unfold seg_parsed, ext_of, lam_tok, kw_seg. cbn [g_lrow g_body]. rewrite Hp. reflexivity. }
+  destruct (keyword_lambda_filed P L dsrc (Some m) args earlier more glue m mrow prow k krow erow L body stop tail
+                                 He Hg Hm Hk Hb Hs Hps Hend) as [_ ->].
+  assert (E : strs_eqb args args = true).
+  { clear. induction args as [|x l IH]; cbn [strs_eqb]; [reflexivity|]. rewrite String.eqb_refl, IH. reflexivity. }
+  set (c := mkCand (Some m) (List.length glue + 4) (List.length glue + 4 + 1 + List.length body) L
+                   (P (mkTok L KName "lambda" :: filter not_comment body))).
+  assert (F1 : filter (on_row L) [c] = [c]) by (cbn [filter]; unfold on_row, c; cbn [c_row]; rewrite Nat.eqb_refl; reflexivity).
+  assert (F2 : filter (key_is m) [c] = [c]) by (cbn [filter]; unfold key_is, c; cbn [c_key]; rewrite String.eqb_refl; reflexivity).
+  assert (F3 : existsb no_lambda [c] = false) by (cbn [existsb]; unfold no_lambda, c; cbn [c_parse]; rewrite Hp; reflexivity).
+  assert (F4 : filter (args_are args) [c] = [c]) by (cbn [filter]; unfold args_are, c; cbn [c_parse]; rewrite Hp, E; reflexivity).
+  unfold select. cbv beta iota zeta. rewrite F1, F2, F3, F4. reflexivity.
 Qed.
 
 (* ------------------------------------------------------------------ bracket nesting vs the three counters *)
@@ -590,10 +723,10 @@ Proof.
 Qed.
 
 (* ------------------------------------------------------------------ the def branch *)
-Lemma scan_def_eq : forall P whole ts last i cs,
-    scan P ["def"] whole (First last) i ts cs = def_scan ts.
+Lemma scan_def_eq : forall P eqfix whole ts last prev nm i cs,
+    scan P ["def"] eqfix whole (First last prev nm) i ts cs = def_scan ts.
 Proof.
-  intros P whole. induction ts as [|t r IH]; intros last i cs; cbn [scan def_scan]; [reflexivity|].
+  intros P eqfix whole. induction ts as [|t r IH]; intros last prev nm i cs; cbn [scan def_scan]; [reflexivity|].
   destruct (is_kind KErr t); [reflexivity|]. unfold is_name.
   destruct (is_kind KName t); cbn [andb]; [|apply IH].
   cbn [existsb]. destruct (String.eqb (ttext t) "def"); cbn [orb]; [reflexivity | apply IH].
